@@ -833,6 +833,16 @@ def c13_merges(tier, seed):
             kind_, lib = real.outcome(GroupLibrary.Load, p)
             if kind_ == 'ok':
                 viol.append({'id': 'duplicate-%s-%s' % (s1, s2), 'input': [s1, s2], 'observed': 'loaded', 'expected': 'rejected (KeyError: multiple definitions)'})
+            # ... and the same file reached through an include (one and two levels down): the rejection of an included file is the rejection of the library
+            n += 1
+            write_library(tmp, 'dup_inner.yaml', units, {s1: fileparts['h.yaml'], s2: fileparts['s.yaml']})
+            write_library(tmp, 'dup_mid.yaml', units, {}, include=['dup_inner.yaml'])
+            for top_inc in (['dup_inner.yaml'], ['h.yaml', 'dup_mid.yaml']):
+                p = write_library(tmp, 'library.yaml', units, {}, include=top_inc)
+                kind_, lib = real.outcome(GroupLibrary.Load, p)
+                if kind_ == 'ok':
+                    viol.append({'id': 'duplicate-in-include-%s-%s-%d' % (s1, s2, len(top_inc)), 'input': {'included file': [s1, s2], 'include': top_inc}, 'observed': 'loaded',
+                                 'expected': 'rejected (a group under two spellings in one file)'})
         # two libraries loaded SEPARATELY (each Load builds its own scheme object) and merged with Update: groups are matched by what they are, not by the
         # scheme object they carry -- union, conflict, and nothing listed twice
         n += 1
